@@ -102,6 +102,8 @@ func init() {
 	vr := vcRuns()
 	checks["C01"].Runs = append(checks["C01"].Runs, vr[0], vr[2])
 	checks["C09"].Runs = append(checks["C09"].Runs, vr[1], vr[2])
+	// arbitrary proofs through the REAL verifier inside the real Update: every way the verifier refuses
+	checks["C09"].Runs = append(checks["C09"].Runs, runSpec{Harness: pkgWitness + ".VerifUpdateInline", Quick: p("n", 5, "signers", 1, "vc_inline", 1), Thorough: p("n", 8, "signers", 1, "vc_inline", 1), Covers: []string{"inline/growth-accepted", "inline/proof-refused"}})
 	// proofs of every length the reference prover produces, through the real verifier, for concrete sizes
 	checks["C09"].Runs = append(checks["C09"].Runs, runSpec{Harness: pkgWitness + ".VerifHonestStep", Quick: p("n", 8, "signers", 1, "vc_inline", 1), Thorough: p("n", 32, "signers", 1, "vc_inline", 1), Covers: []string{"honest/growth-accepted", "honest/first-use-accepted", "honest/refresh-accepted"}})
 	checks["C01"].Runs = append(checks["C01"].Runs, runSpec{Harness: pkgWitness + ".VerifUpdateInline", Quick: p("n", 6, "signers", 1, "vc_inline", 1), Thorough: p("n", 12, "signers", 1, "vc_inline", 1), Covers: []string{"inline/growth-accepted", "inline/proof-refused"}})
@@ -178,6 +180,8 @@ func init() {
 	reg(&checkSpec{ID: "C18", Assumptions: append([]string{"decimal formatting (%d, %03d) is an uninterpreted function of the 64-bit value shared by both implementations", "tile byte decoding inside tlog.TileHashReader is outside the claim"}, commonAssumptions...), Runs: []runSpec{
 		{Harness: pkgSumdb + ".VerifTilePath", Domain: sym.DomString, Solver: sym.Z3, Quick: p(), Thorough: p(), Covers: []string{"tile/full-deep", "tile/partial-shallow", "tile/seven-levels"}},
 		{Harness: pkgWitness + ".VerifVCComplete", Quick: p("n", 16, "vc_inline", 1), Thorough: p("n", 64, "vc_inline", 1), Covers: []string{"vc/nontrivial-proof"}},
+		// one real feed cycle: a growth step is submitted with a proof built from tiles
+		{Harness: pkgSumdb + ".VerifFeedHostile", Quick: p("attempts", 1), Thorough: p("attempts", 2), Unwind: 140, Covers: []string{"hostile/proof-built", "hostile/growth-submitted"}},
 	}})
 	reg(&checkSpec{ID: "C13", Assumptions: append([]string{"backoff.Retry contract (harness/internal/verifrt/backoff.go), attempts bounded; back-off timing not modelled"}, commonAssumptions...), Runs: []runSpec{
 		{Harness: pkgFeeder + ".VerifFeedOnce", Quick: p("attempts", 2, "maxproof", 1), Thorough: p("attempts", 3, "maxproof", 1), Covers: []string{"feed/success-first-try", "feed/success-after-retry", "feed/witness-ahead", "feed/refresh", "feed/context-done", "feed/unverifiable-checkpoint"}},
